@@ -36,6 +36,9 @@ func (C20) Generate(r *core.Rand, tier string, idx int) *core.Scenario {
 	if r.P(1, 2) {
 		sc.Cfg["recfail"] = 1 // (finding F14, repaired) remote failures stay armed while messages are moved out of the recovery mailbox
 	}
+	if sc.Cfg["reclimit"] == 0 && r.P(1, 2) {
+		sc.Cfg["dedupmove"] = 1 // the remote recognises some messages moved out of the recovery mailbox as duplicates
+	}
 	//                 app arm dis cpo mvo pro lst rst siz mov exr
 	weights := []int{16, 8, 3, 4, 4, 4, 3, 1, 2, 2, 1, 4}
 	n := r.Range(15, 45)
@@ -72,6 +75,7 @@ func (C20) Execute(sc *core.Scenario, keepLog bool) *core.Result {
 		var sent []*gen.Message  // messages handed to APPEND so far
 		var lastBad *gen.Message // the last single-part message with an undecodable body
 		objs := map[int]*model.Obj{}
+		remoteOf := map[*model.Obj]imap.MessageID{} // remote ID of the objects created by an accepted APPEND
 		recHas := func(marker int) bool {
 			for _, mm := range rec.Members {
 				if mm.Obj.Marker == marker {
@@ -193,9 +197,13 @@ func (C20) Execute(sc *core.Scenario, keepLog bool) *core.Result {
 					}
 				}
 				sizeErr := false
+				newID := ""
 				for _, c := range u.Conn.TakeCalls() {
 					if c.Kind == simconn.KCreateMessage && errors.Is(c.Err, connector.ErrMessageSizeExceedsLimits) {
 						sizeErr = true
+					}
+					if c.Kind == simconn.KCreateMessage && c.Err == nil {
+						newID = c.NewID
 					}
 				}
 				if r.OK() {
@@ -204,6 +212,9 @@ func (C20) Execute(sc *core.Scenario, keepLog bool) *core.Result {
 						// every successful APPEND creates a new message object (no de-duplicating remote here)
 						obj, _ = model.NewObj(msg.Marker, msg.Bytes, nil)
 						objs[msg.Marker] = obj
+					}
+					if newID != "" {
+						remoteOf[obj] = imap.MessageID(newID)
 					}
 					uid := e.R.Boxes[boxName].Add(obj, false)
 					var uv, got uint32
@@ -300,9 +311,65 @@ func (C20) Execute(sc *core.Scenario, keepLog bool) *core.Result {
 				dest := m.box(a.Arg(1))
 				verb := map[string]string{"copyout": "COPY", "moveout": "MOVE"}[a.K]
 				o := rec.Members[q-1].Obj
+				// cfg dedupmove: the remote answers the upload of a message moved out of the
+				// recovery mailbox with the ID of a message the destination already holds (it
+				// recognised a duplicate): the message leaves the recovery mailbox, nothing new
+				// appears in the destination, and the recovery mailbox no longer counts those
+				// bytes as kept
+				var dup *model.Obj
+				if sc.C("dedupmove") == 1 && a.K == "moveout" && o.Bytes != nil && a.Arg(2)%3 != 0 {
+				search:
+					for _, bn := range append([]string{dest}, m.Boxes...) {
+						b, ok := e.R.Boxes[bn]
+						if !ok {
+							continue
+						}
+						for _, mm := range b.Members {
+							if mm.Obj.Marker == o.Marker && remoteOf[mm.Obj] != "" && bytes.Equal(mm.Obj.Bytes, o.Bytes) {
+								dup, dest = mm.Obj, bn
+								break search
+							}
+						}
+					}
+				}
+				if dup != nil {
+					u.Conn.DedupeTo = remoteOf[dup]
+				}
 				r := s.Cmd("%s %d %s", verb, q, Quote(dest))
-				e.Tr.Event(a.K, q, dest, r.Status)
+				u.Conn.DedupeTo = ""
+				e.Tr.Event(a.K, q, dest, r.Status, dup != nil)
 				u.Conn.TakeCalls()
+				if r.OK() && dup != nil {
+					rec.Remove(o)
+					e.St.Probes["moved_out_of_recovery_onto_duplicate"]++
+					s.Cmd("UNSELECT")
+					s.M.Unselect()
+					check("recovery-out-dedup")
+					if e.Failed() || a.Arg(3)%2 != 0 {
+						break
+					}
+					// the same bytes are refused once more: they are in no mailbox of the
+					// recovery kind any longer, so they must be kept again
+					u.Conn.Disarm()
+					u.Conn.Arm(simconn.KCreateMessage, simconn.ErrInjected)
+					ar := s.Do(wire.WithLiteral(fmt.Sprintf("APPEND %s ", Quote(dest)), o.Bytes, ""))
+					e.Tr.Event("append-after-dedup-move", dest, o.Marker, ar.Status)
+					u.Conn.TakeCalls()
+					u.Conn.Disarm()
+					if ar.OK() {
+						e.Fail("conservation", "APPEND answered OK although the remote refused the message")
+						break
+					}
+					failed++
+					if !recHas(o.Marker) {
+						no, _ := model.NewObj(o.Marker, o.Bytes, nil)
+						rec.Add(no, false)
+						recovered++
+					}
+					e.St.Probes["refused_again_after_dedup_move"]++
+					check("conservation")
+					break
+				}
 				if r.OK() {
 					// the bytes land in the destination as a message of the remote
 					no, _ := model.NewObj(o.Marker, o.Bytes, nil)
